@@ -435,7 +435,7 @@ fn run_families(rep: &mut Report, fams: &[Family], optnames: &[&'static str], n1
 const OPTSETS: &[&str] = &["default", "gfm", "all"];
 
 pub fn run(cfg: &Cfg, rep: &mut Report) {
-    rep.rule = "S: for every fragment up to length 3 (quick) / 4 (thorough) over the alphabet *_`[]()<>!&\\|~^$:-#=+@./\"' LF a 1 (fragments of only a/1/space skipped) the families a.f^n, (f LF)^n and f^n.a.mirror(f)^n, plus ~150 curated shapes as nest/tree/repeat/lines/paragraph families; each measured at two sizes n (2^11, 2^12 quick; up to 2^16, 2^17 thorough; length-3/4 fragments screened at smaller n and re-measured at the large sizes when the slope exceeds 1.1) under default, GFM and all-extensions options; per measurement: 12 deterministic step counters (hook comrak::verif::steps) over parse + HTML + CommonMark + XML, output lengths, wall clock in an isolated worker. Oracle: log-log slope of total steps <= 1.25 (+0.10 tolerance), output <= 160 n + 4096. K (equality of step counts, exhaustive short + random texts): backtick-scan == Lean btStepsPos on one-paragraph texts over {a, `}; dollar-scan (math_code on) == Lean dlSteps on texts over {$, `, a, \\}, and == cdSteps of the pieces when every scan runs to the end; emphasis-opener-search == Lean emSteps true (the code as it is since /repo commit 9704a60) on texts over {*, _, a, space}; proved bounds (3n; 19 n + chars for process_emphasis) re-checked on every text.".into();
+    rep.rule = "S: for every fragment up to length 3 (quick) / 4 (thorough) over the alphabet *_`[]()<>!&\\|~^$:-#=+@./\"' LF a 1 (fragments of only a/1/space skipped) the families a.f^n, (f LF)^n and f^n.a.mirror(f)^n, plus ~150 curated shapes as nest/tree/repeat/lines/paragraph families; each measured at two sizes n (2^11, 2^12 quick; up to 2^16, 2^17 thorough; length-3/4 fragments screened at smaller n and re-measured at the large sizes when the slope exceeds 1.1) under default, GFM and all-extensions options; per measurement: 12 deterministic step counters (hook comrak::verif::steps) over parse + HTML + CommonMark + XML, output lengths, wall clock in an isolated worker. Oracle: log-log slope of total steps <= 1.25 (+0.10 tolerance), output <= 160 n + 4096. K (equality of step counts, exhaustive short + random texts): backtick-scan == Lean btStepsPos on one-paragraph texts over {a, `}; dollar-scan == Lean dlSteps (the code as it is since /repo commits 657287d and b4925f3, with its no-closer memos) on texts over {$, `, a, \\} with math_code and over {$, `, a, \\, space, 1} with math_dollars (with and without math_code); emphasis-opener-search == Lean emSteps true (the code as it is since /repo commit 9704a60) on texts over {*, _, a, space}; proved bounds (3n backticks; 3n code-dollar, 5n math-dollar; 19 n + chars for process_emphasis) re-checked on every text.".into();
     if std::env::var("CVH_C06_ICOUNT_ONLY").is_ok() {
         let mut ifams = wrap_families(cfg.tier_thorough);
         ifams.extend(curated().into_iter().filter(|f| f.shape == "nest"));
@@ -667,49 +667,55 @@ fn real_backtick_steps(text: &str) -> Option<u64> {
     real_steps(text, &Opts::default(), 3)
 }
 
-/// K for `scan_to_closing_code_dollar`: the real `dollar-scan` counter (index 4) of a one-paragraph text 'a' + w,
-/// w over letters, `$`, backtick and backslash, with `math_code` on (and `math_dollars` off) == the Lean byte-level
-/// model `dlSteps`; and, when every executed scan runs to the end (no closer ahead), == the abstraction `cdSteps` of the pieces between the openers.
-fn k_cd<'a>(bt: &mut Batch<'a>, rep: &mut Report, body: Vec<u8>) {
+/// K for the dollar scanners: the real `dollar-scan` counter (index 4) of a one-paragraph text 'a' + w, w over
+/// letters, digits, spaces, `$`, backtick and backslash, with `math_code` = mc and `math_dollars` = md ==
+/// the Lean byte-level model `dlSteps mc md` of the code as it is since /repo commits 657287d and b4925f3
+/// (`no_code_dollar_closer`, `no_dollar_closer_before[len]`); the proved bounds (`dollar_linear`,
+/// `math_dollar_linear`) are re-checked on every text.
+fn k_cd<'a>(bt: &mut Batch<'a>, rep: &mut Report, body: Vec<u8>, mc: bool, md: bool) {
     let mut text = b"a".to_vec();
     text.extend_from_slice(&body);
     let s = String::from_utf8(text.clone()).unwrap();
-    let real = match real_steps(&s, &Opts::default().with("math_code", true), 4) {
+    let real = match real_steps(&s, &Opts::default().with("math_code", mc).with("math_dollars", md), 4) {
         Some(x) => x,
         None => {
             rep.count("k-skipped-panic");
             return;
         }
     };
-    if contains(&body, b"$`") {
-        rep.nontrivial(&body);
+    if body.contains(&b'$') {
+        rep.nontrivial(&(body.clone(), mc, md));
     }
-    let inp = format!("cd {}", hex(&text));
-    bt.push(format!("c06dl {}", hex(&text)), move |resp, rep| {
+    let inp = format!("cd {} {} {}", hex(&text), mc as u8, md as u8);
+    bt.push(format!("c06dl {} {} {}", mc as u8, md as u8, hex(&text)), move |resp, rep| {
         rep.k_evals += 1;
-        // answer: <dlSteps> <executed openers> <every scan ran to the end> <cdSteps of the pieces>
+        // answer: <dlSteps (code as it is)> <dlStepsOld (before 657287d)> <executed scans> <steps of rejected `$` scans> <length> <abstraction ok>
         let f: Vec<&str> = resp.split(' ').collect();
         let get = |i: usize| f.get(i).and_then(|x| x.parse::<u64>().ok());
-        let (model, openers, allfail, abs) = match (get(0), get(1), get(2), get(3)) {
-            (Some(a), Some(b), Some(c), Some(d)) => (a, b, c == 1, d),
+        let (model, old, rej, len, abs) = match (get(0), get(1), get(3), get(4), get(5)) {
+            (Some(a), Some(b), Some(c), Some(d), Some(e)) => (a, b, c, d, e),
             _ => {
                 rep.disagree("dollar-steps-model", inp, format!("malformed model answer {:?}", resp));
                 return;
             }
         };
         if model != real {
-            rep.disagree("dollar-steps-model", inp, format!("real dollar-scan steps = {} model dlSteps = {}", real, model));
+            rep.disagree("dollar-steps-model", inp, format!("real dollar-scan steps = {} model dlSteps = {} (before the repair: {})", real, model, old));
             return;
         }
-        if allfail {
-            if openers >= 2 {
-                rep.count("k-code-dollar-texts-with-2+-unclosed-openers");
-            }
-            if abs != real {
-                rep.disagree("dollar-steps-abstraction", inp, format!("every scan runs to the end, real dollar-scan steps = {} but cdSteps(pieces) = {}", real, abs));
-            }
-        } else {
-            rep.count("k-code-dollar-texts-with-a-closer-found");
+        if model != old {
+            rep.count("k-dollar-code-differs-from-scanner-before-repair");
+        }
+        if rej > 0 {
+            rep.count("k-dollar-texts-with-a-rejected-scan");
+        }
+        // dollar_linear (math_dollars off): <= 3 len; math_dollar_linear: <= 5 len
+        let bound = if md { 5 * len } else { 3 * len };
+        if real > bound {
+            rep.disagree("dollar-steps-bound", inp.clone(), format!("real dollar-scan steps {} exceed the proved bound {}", real, bound));
+        }
+        if abs == 0 {
+            rep.disagree("dollar-steps-abstraction", inp, "cdStepsOld(pieces) differs from the memo-less byte-level model although every old scan runs to the end".to_string());
         }
     });
 }
@@ -845,45 +851,71 @@ fn k_stage(cfg: &Cfg, rep: &mut Report) {
         }
         k_bt(&mut bt, rep, body);
     }
-    // ---- scan_to_closing_code_dollar
+    // ---- dollar scanners
     let maxlen = if cfg.tier_thorough { 9 } else { 8 };
     let mut n_exh = 0;
     const CD: &[u8] = b"$`a\\";
     for len in 0..=maxlen {
         for code in 0u32..(1u32 << (2 * len)) {
             let body: Vec<u8> = (0..len).map(|i| CD[(code >> (2 * i) & 3) as usize]).collect();
-            k_cd(&mut bt, rep, body);
+            k_cd(&mut bt, rep, body, true, false);
             n_exh += 1;
         }
     }
-    rep.exhaustive_what.push(format!("code-dollar scanner: all {} texts 'a'+w, w over {{$,`,a,\\}} of length <= {}", n_exh, maxlen));
+    rep.exhaustive_what.push(format!("code-dollar scanner (math_code): all {} texts 'a'+w, w over {{$,`,a,\\}} of length <= {}", n_exh, maxlen));
+    let maxlen = if cfg.tier_thorough { 7 } else { 6 };
+    let mut n_exh = 0;
+    const MD: &[u8] = b"$`a\\ 1";
+    for len in 0..=maxlen {
+        for code in 0u32..6u32.pow(len as u32) {
+            let mut c = code;
+            let body: Vec<u8> = (0..len).map(|_| { let x = MD[(c % 6) as usize]; c /= 6; x }).collect();
+            k_cd(&mut bt, rep, body.clone(), false, true);
+            k_cd(&mut bt, rep, body, true, true);
+            n_exh += 2;
+        }
+    }
+    rep.exhaustive_what.push(format!("math-dollar scanner (math_dollars, with and without math_code): all {} texts 'a'+w, w over {{$,`,a,\\,space,1}} of length <= {}", n_exh, maxlen));
     let n = if cfg.tier_thorough { 60_000 } else { 8_000 };
     for i in 0..n {
         let k = r.range(1, 50);
         let mut body = vec![];
         let closers = r.chance(1, 2);
+        let (mc, md) = match r.below(3) { 0 => (true, false), 1 => (false, true), _ => (true, true) };
         for _ in 0..k {
-            match r.below(10) {
-                0 | 1 | 2 | 3 => body.extend_from_slice(b"$`"),
-                4 => body.push(b'$'),
+            match r.below(12) {
+                0 | 1 | 2 => body.extend_from_slice(b"$`"),
+                3 | 4 => body.extend(std::iter::repeat(b'$').take(r.range(1, 3))),
                 5 => body.extend(std::iter::repeat(b'`').take(r.range(1, 3))),
                 6 => body.push(b'\\'),
                 7 if closers => body.extend_from_slice(b"`$"),
+                8 if md => body.push(b' '),
+                9 if md => body.push(b'1'),
+                10 if md => body.extend_from_slice(b"\\\\$"),
                 _ => body.extend(std::iter::repeat(b'a').take(r.range(1, 3))),
             }
             if !closers && body.last() == Some(&b'`') {
-                // no "`$" anywhere: every executed opener runs to the end (the sublanguage of `cdSteps`)
+                // no "`$" anywhere: every executed code-dollar opener runs to the end
                 body.push(b'a');
             }
         }
         if i < 3 {
-            rep.sample(format!("code-dollar text {:?}", show(&body)));
+            rep.sample(format!("dollar text (math_code {}, math_dollars {}) {:?}", mc, md, show(&body)));
         }
-        k_cd(&mut bt, rep, body);
+        k_cd(&mut bt, rep, body, mc, md);
     }
-    // the family of the known finding at small sizes
+    // the families of the (former) known findings at small sizes, and the space-rule family that no flag covers
     for k in 1..=40usize {
-        k_cd(&mut bt, rep, b"$`a".repeat(k));
+        k_cd(&mut bt, rep, b"$`a".repeat(k), true, false);
+        k_cd(&mut bt, rep, b"$\\\\".repeat(k), false, true);
+        k_cd(&mut bt, rep, b"$\\\\".repeat(k), true, true);
+        // scans ended by the space rule / the digit rule (no memo for them before /repo commit b4925f3)
+        for tail in [&b" $"[..], &b"$1"[..], &b" $$ $1"[..]] {
+            let mut t = b"$\\\\".repeat(k);
+            t.extend_from_slice(tail);
+            k_cd(&mut bt, rep, t.clone(), false, true);
+            k_cd(&mut bt, rep, t, true, true);
+        }
     }
     // ---- process_emphasis
     let maxlen = if cfg.tier_thorough { 9 } else { 8 };
@@ -966,7 +998,9 @@ pub fn replay(kind: &str, input: &str) -> Result<Option<String>, String> {
             let m = Model::from_env();
             let mut bt = Batch::new();
             let t = crate::util::unhex(toks[1]).ok_or("bad hex")?;
-            k_cd(&mut bt, &mut rep, t[1.min(t.len())..].to_vec());
+            let mc = toks.get(2).map_or(true, |x| *x == "1");
+            let md = toks.get(3).map_or(false, |x| *x == "1");
+            k_cd(&mut bt, &mut rep, t[1.min(t.len())..].to_vec(), mc, md);
             bt.run(&m, &mut rep);
         }
         Some(&"em") if toks.len() >= 2 => {
